@@ -1,22 +1,29 @@
 #!/bin/bash
-# usage: tools/matrix.sh [seed-dir-glob] -- runs every built check against every seeded change on a scratch
-# copy of /repo (never /repo itself) and prints a detection matrix.  Scratch copies are removed at the end.
+# usage: tools/matrix.sh [own|all] [seed-dir ...] -- runs the checks against seeded changes on a scratch copy of /repo
+# (never /repo itself) and prints a detection matrix.  "own" (default) runs only the check of the property the seed
+# was written against; "all" runs every registered check.  Scratch copies are removed at the end.
 cd "$(dirname "$0")/.."
 export GOFLAGS=-mod=mod GOPROXY=off GOSUMDB=off GOTOOLCHAIN=local; unset GOWORK
-SCR=$(mktemp -d /tmp/matrix.XXXXXX)
-PROPS=$(./bin/rulint -list)
+MODE=${1:-own}; shift
+SEEDS=${@:-seeded/*}
+SCR=$(mktemp -d /tmp/mtx.XXXXXX)
+ALL=$(./bin/rulint -list)
 OUT=${MATRIX_OUT:-/tmp/matrix.out}
 : > $OUT
-for S in ${1:-seeded/*}; do
+for S in $SEEDS; do
   [ -f $S/patch.diff ] || continue
   rm -rf $SCR/repo $SCR/verif; mkdir -p $SCR/verif
   rsync -a --exclude .git /repo/ $SCR/repo/
   cp known_findings.txt $SCR/verif/
-  if ! (cd $SCR/repo && patch -p1 --quiet < "$OLDPWD/$S/patch.diff" >/dev/null 2>&1); then echo "$(basename $S) PATCH-FAILED" >> $OUT; continue; fi
-  LINE="$(basename $S)"
-  for P in $PROPS; do
-    R=$(VERIF_DIR=$SCR/verif ./bin/rulint -property $P -repo $SCR/repo 2>&1); RC=$?
-    if [ $RC = 1 ]; then LINE="$LINE $P:VIOL"; elif [ $RC = 2 ]; then LINE="$LINE $P:UNDEC"; fi
+  P=$S/patch.diff; [ -f $S/patch.rebased.diff ] && P=$S/patch.rebased.diff
+  if ! (cd $SCR/repo && patch -p1 --quiet < "$OLDPWD/$P" >/dev/null 2>&1); then echo "$(basename $S) PATCH-FAILED" >> $OUT; continue; fi
+  if ! (cd $SCR/repo && go build ./... >/dev/null 2>&1); then echo "$(basename $S) BUILD-FAILED" >> $OUT; continue; fi
+  B=$(basename $S); OWN=${B%%-*}
+  PROPS=$OWN; [ "$MODE" = all ] && PROPS=$ALL
+  LINE="$B"
+  for PP in $PROPS; do
+    R=$(VERIF_DIR=$SCR/verif ./bin/rulint -property $PP -repo $SCR/repo 2>&1); RC=$?
+    if [ $RC = 1 ]; then LINE="$LINE $PP:VIOL[$(echo "$R" | grep '^finding:' | head -1 | cut -d' ' -f3 | cut -d'|' -f1)]"; elif [ $RC = 2 ]; then LINE="$LINE $PP:UNDEC"; else LINE="$LINE $PP:pass"; fi
   done
   echo "$LINE" >> $OUT
 done
